@@ -29,9 +29,7 @@ def decimalValue (ds : List Char) : Nat :=
 def specNat (ds : List Char) : Option Nat :=
   if ds ≠ [] ∧ ds.all isAsciiDigit then some (decimalValue ds) else none
 
-def inI32 (v : Int) : Prop := -2147483648 ≤ v ∧ v ≤ 2147483647
-
-instance (v : Int) : Decidable (inI32 v) := by unfold inI32; exact inferInstance
+def inI32 (v : Int) : Bool := decide (-2147483648 ≤ v) && decide (v ≤ 2147483647)
 
 /-- optional single sign `+`/`-`, at least one ASCII digit, value within
     −2147483648 … 2147483647 -/
@@ -40,9 +38,9 @@ def specInt (s : List Char) : Option Int :=
     match s with
     | [] => none
     | c :: t =>
-      if c = '-' then (specNat t).map fun n => -(n : Int)
-      else if c = '+' then (specNat t).map fun n => (n : Int)
-      else (specNat s).map fun n => (n : Int)
+      if c = '-' then (specNat t).map fun (n : Nat) => -(n : Int)
+      else if c = '+' then (specNat t).map fun (n : Nat) => (n : Int)
+      else (specNat s).map fun (n : Nat) => (n : Int)
   match signed with
   | some v => if inI32 v then some v else none
   | none => none
@@ -72,9 +70,8 @@ def specIndex (s : List Char) : Option Int :=
   | none => none
 
 /-- both strictly positive or both strictly negative -/
-def sameSignP (a b : Int) : Prop := (0 < a ∧ 0 < b) ∨ (a < 0 ∧ b < 0)
-
-instance (a b : Int) : Decidable (sameSignP a b) := by unfold sameSignP; exact inferInstance
+def sameSignP (a b : Int) : Bool :=
+  (decide (0 < a) && decide (0 < b)) || (decide (a < 0) && decide (b < 0))
 
 /-- the range part: `N`, `N:M`, `N:`, `:M` -/
 def specRange (s : List Char) : Option (Side × Side) :=
